@@ -328,8 +328,20 @@ func C16sched(rep *ev.Report) {
 
 	var scenarios []Scenario
 
-	for a := range conc.Ops {
-		for b := range conc.Ops {
+	// core operations: all ordered pairs; value-class operations: with each other and with a few core operations
+	corePartner := map[string]bool{"HashToScalar(M,D[:18])": true, "Element.Subtract(E1)": true, "Element.Multiply(S1)": true, "Scalar.Pow(S2)": true, "E1.Encode()": true, "Scalar.Set(S1).Add(S2)": true}
+
+	for a, oa := range conc.Ops {
+		for b, ob := range conc.Ops {
+			va, vb := conc.IsValueClass(oa.Name), conc.IsValueClass(ob.Name)
+
+			switch {
+			case !va && !vb, va && vb:
+			case va && corePartner[ob.Name], vb && corePartner[oa.Name]:
+			default:
+				continue
+			}
+
 			scenarios = append(scenarios, Scenario{{a}, {b}})
 		}
 	}
